@@ -156,8 +156,7 @@ def run_real(src, hist):
             outs.append(("XErrI", "RecursionError"))
         except Exception as e:
             outs.append((exc_class(e), "%s: %s" % (type(e).__name__, str(e)[:150])))
-            if name not in QUERIES and not (len(op) > 2 and op[2]):
-                mods.append(None)      # keep indices aligned: the call would have created a module
+            # a call that fails creates no module (the abstract machine numbers modules the same way)
     return outs
 
 
